@@ -21,7 +21,9 @@ func propC11(r *Report, tier string) {
 	ruleScorchRootLockTable(r, "K2-rootLock-guarded-by")
 	ruleGuardedByTables(r, "K2-guarded-by-tables")
 	ruleClosersClosed(r, "K1-readers-closed", func(rel string) bool { return !strings.HasPrefix(rel, "cmd/") },
-		func(c *ast.CallExpr, f *types.Func) bool { return f != nil && (f.Name() == "Reader" || f.Name() == "CopyReader") }, closersAllow)
+		func(c *ast.CallExpr, f *types.Func) bool {
+			return f != nil && (f.Name() == "Reader" || f.Name() == "CopyReader")
+		}, closersAllow)
 	ruleScorchChannelDiscipline(r, "K4-channel-discipline")
 	ruleLoopLifecycle(r, "K5-loop-lifecycle")
 	ruleCancellationPolled(r, "K5-cancellation")
@@ -106,7 +108,7 @@ func ruleGuardedByTables(r *Report, rule string) {
 }
 
 var closersAllow = map[string]string{
-	"bleve.(*indexImpl).FieldDict/indexReader":       "true leak of the index reader when the dictionary cannot be opened; in both engines that only happens for a corrupt segment/store (outside C11's quantifier), so it is recorded here, not as a finding",
-	"bleve.(*indexImpl).FieldDictRange/indexReader":  "same as FieldDict",
-	"bleve.(*indexImpl).FieldDictPrefix/indexReader": "same as FieldDict",
+	"bleve.(*indexImpl).FieldDict/Reader":       "true leak of the index reader when the dictionary cannot be opened; in both engines that only happens for a corrupt segment/store (outside C11's quantifier), so it is recorded here, not as a finding",
+	"bleve.(*indexImpl).FieldDictRange/Reader":  "same as FieldDict",
+	"bleve.(*indexImpl).FieldDictPrefix/Reader": "same as FieldDict",
 }
